@@ -274,15 +274,32 @@ impl Engine for C13 {
         // arbitrary unicode acts as ambiguous bytes (iterators / oligo only)
         if mode != "cgr_batch" && rng.chance(1, 4) && !records.is_empty() {
             let i = rng.usize(0, records.len() - 1);
-            let ins = *rng.pick(&["\u{e9}", "\u{3b1}", "\u{4e2d}", "\u{1f9ec}", "n", "-"]);
+            let ins: String = if rng.chance(1, 3) {
+                let base = *rng.pick(&[0x100u32, 0x400, 0x4E00, 0x1F300]);
+                let low = *rng.pick(b"ACGTUacgtu") as u32;
+                char::from_u32(base + low).unwrap_or('\u{141}').to_string()
+            } else {
+                rng.pick(&["\u{e9}", "\u{3b1}", "\u{4e2d}", "\u{1f9ec}", "n", "-"]).to_string()
+            };
             let pos = rng.usize(0, records[i].seq.len());
-            records[i].seq.insert_str(pos, ins);
+            records[i].seq.insert_str(pos, &ins);
         }
         // a bad nucleotide somewhere in a CGR batch must raise ValueError
         if mode == "cgr_batch" && rng.chance(1, 4) && !records.is_empty() {
             let i = rng.usize(0, records.len() - 1);
             let pos = rng.usize(0, records[i].seq.len());
-            records[i].seq.insert_str(pos, *rng.pick(&["N", "x", "-", "\u{e9}", "4", "5", "!", "#", "'", "1", "t\u{301}"]));
+            // printable foreign bytes, non-ASCII characters, and non-ASCII characters
+            // whose code point has a nucleotide letter as its low byte (U+0141 ...)
+            let bad: String = match rng.below(3) {
+                0 => rng.pick(&["N", "x", "-", "4", "5", "!", "#", "'", "1"]).to_string(),
+                1 => rng.pick(&["\u{e9}", "\u{3b1}", "\u{4e2d}", "\u{1f9ec}", "t\u{301}"]).to_string(),
+                _ => {
+                    let base = *rng.pick(&[0x100u32, 0x400, 0x4E00, 0x1F300, 0x2000]);
+                    let low = *rng.pick(b"ACGTUacgtu") as u32;
+                    char::from_u32(base + low).unwrap_or('\u{141}').to_string()
+                }
+            };
+            records[i].seq.insert_str(pos, &bad);
         }
         let sched = Sched::draw(rng, 4 * batch as u64 + 8);
         Case {
